@@ -27,7 +27,7 @@ RULE = ("in-process cases (R: Feed histories with insertion points and patches; 
         "have >=1 insertion point and >=1 patch / a map of >=2 entries / >=2 entries; dynamic cases are (generated multi-file IDL "
         "program x option set) combos, each executed runs_per_combo times with GOMAXPROCS cycling 1,2,7,16, relative and absolute "
         "output directories and once into a directory holding a stale previous output; before them a regression corpus: the 3 minimal "
-        "witnesses of the three repaired defects (40 executions each) and 3 wide variants with 8-entry maps (16 each), one hash expected; a combo counts as distinct non-trivial when "
+        "witnesses of the three repaired defects (40 executions each) and 3 wide variants with 8-entry maps (6 each at quick, 16 at thorough), one hash expected; a combo counts as distinct non-trivial when "
         "thriftgo accepted it and it produced >=1 output file or plugin request; evaluations = in-process cases + thriftgo executions")
 
 
